@@ -4,6 +4,7 @@ import (
 	"bytes"
 	"encoding/json"
 
+	"github.com/emitter-io/stats"
 	"github.com/kelindar/rate"
 
 	"github.com/emitter-io/emitter/internal/config"
@@ -37,7 +38,7 @@ func c08new(v *verifrt.T) *c08env {
 	e := &c08env{ciph: &hcipher{}, notify: &hnotifier{}, trie: message.NewTrie()}
 	lic := &license.V1{User: 7, Sign: 9}
 	contracts := contract.NewSingleContractProvider(lic, usage.NewNoop())
-	e.svc = &Service{contracts: contracts, subscriptions: e.trie, License: lic, Config: &config.Config{}}
+	e.svc = &Service{contracts: contracts, subscriptions: e.trie, License: lic, Config: &config.Config{}, measurer: stats.NewNoop()}
 	e.svc.keygen = keygen.New(e.ciph, contracts, e.svc)
 	e.ps = pubsub.New(e.svc, storage.NewNoop(), e.notify, e.trie)
 	e.svc.pubsub = e.ps
